@@ -9,10 +9,13 @@ package main
 
 import (
 	"context"
+	"errors"
 	"fmt"
 	"strings"
+	"time"
 
 	"github.com/jig/lisp"
+	"github.com/jig/lisp/lib/call"
 	. "github.com/jig/lisp/types"
 )
 
@@ -60,10 +63,84 @@ func (e *errbiEngine) generate(r *rng, n int, tier string, emit func(string)) {
 	for i := range errbiCases {
 		emit(fmt.Sprintf("case=%d", i))
 	}
+	for i := range errbiCtxPrograms {
+		for _, ms := range []int{60, 150} {
+			emit(fmt.Sprintf("ctxerr=%d ms=%d", i, ms))
+		}
+	}
+}
+
+// ctxerr: a context-aware embedder builtin (`fetch!`) waits until ITS context ends and returns that context's error wrapped
+// ("fetch: %w") — inside a try body it is the body's 80 % share that ends first, well before the evaluation's deadline.
+// "an error returned by a Go builtin is delivered unchanged to the nearest enclosing catch, or else to the Go caller (Go
+// errors still reachable with errors.Is)": the handler sees the text of fetch!'s error, the Go caller can still ask
+// errors.Is(err, context.DeadlineExceeded).
+var errbiCtxPrograms = []struct {
+	src    string
+	host   bool   // the error reaches the Go caller
+	inText string // text the handler's (str e) / the caller's err.Error() must contain
+}{
+	{`(try (fetch!))`, true, "fetch: context deadline exceeded"},
+	{`(try (fetch!) (catch e (str e)))`, false, "fetch: context deadline exceeded"},
+	{`(try (fetch!) (catch e (throw e)))`, true, "fetch: context deadline exceeded"},
+	{`(try (do (+ 1 2) (map (fn [x] (fetch!)) [1])) (catch e (str e)) (finally (+ 1 1)))`, false, "fetch: context deadline exceeded"},
+	{`(try (try (fetch!) (finally 1)) (catch e (str e)))`, false, "fetch: context deadline exceeded"},
+	{`(fetch!)`, true, "fetch: context deadline exceeded"},
+}
+
+func (e *errbiEngine) runCtxErr(i, ms int) string {
+	c := errbiCtxPrograms[i]
+	ec := &evalCase{}
+	env, err := freshEnv(ec)
+	if err != nil {
+		return "setup-error"
+	}
+	call.CallOverrideFN(env, "fetch!", func(ctx context.Context) (MalType, error) {
+		select {
+		case <-ctx.Done():
+			return nil, fmt.Errorf("fetch: %w", ctx.Err())
+		case <-time.After(20 * time.Second):
+			return "never", nil
+		}
+	})
+	ast, err := lisp.READ(c.src, nil, env)
+	if err != nil {
+		return "setup-error"
+	}
+	ctx, cancel := context.WithTimeout(context.Background(), time.Duration(ms)*time.Millisecond)
+	defer cancel()
+	v, everr := lisp.EVAL(ctx, ast, env)
+	if c.host {
+		if everr == nil {
+			return "differs\t!" + c.src + " under a deadline returned the value " + render(v) + " instead of fetch!'s error"
+		}
+		if !errors.Is(everr, context.DeadlineExceeded) || !strings.Contains(everr.Error(), c.inText) {
+			return "differs\t!" + c.src + ": the Go builtin returned \"fetch: context deadline exceeded\" (wrapping context.DeadlineExceeded); the Go caller got " + oneLine(everr.Error())[:min(len(oneLine(everr.Error())), 160)] + fmt.Sprintf(" (errors.Is DeadlineExceeded: %v)", errors.Is(everr, context.DeadlineExceeded))
+		}
+		return "ok"
+	}
+	if everr != nil {
+		// (the handler itself may run out of time on a slow machine: then the evaluation's own timeout is the outcome)
+		if strings.Contains(everr.Error(), "timeout while") {
+			return "ok"
+		}
+		return "differs\t!" + c.src + ": uncaught " + oneLine(everr.Error())[:min(len(oneLine(everr.Error())), 160)]
+	}
+	if s, _ := v.(string); !strings.Contains(s, c.inText) {
+		return "differs\t!" + c.src + ": the handler must see the Go builtin's own error (\"" + c.inText + "\"); it saw " + render(v)[:min(len(render(v)), 200)] + " = " + oneLine(s)[:min(len(s), 120)]
+	}
+	return "ok"
 }
 
 func (e *errbiEngine) run(payload string) string {
 	var i int
+	if strings.HasPrefix(payload, "ctxerr=") {
+		var ms int
+		if _, err := fmt.Sscanf(payload, "ctxerr=%d ms=%d", &i, &ms); err != nil || i < 0 || i >= len(errbiCtxPrograms) {
+			return "bad-case"
+		}
+		return e.runCtxErr(i, ms)
+	}
 	if _, err := fmt.Sscanf(payload, "case=%d", &i); err != nil || i < 0 || i >= len(errbiCases) {
 		return "bad-case"
 	}
